@@ -172,7 +172,7 @@ def evaluate(r, profile, lines, model, stats, max_recursion):
             dd, nn = hwd, hwn
         else:
             dd, nn = (md or 0), (mn or 0)
-        if not crashed and budget == 0 and dd >= 50 and nbytes > 0 and fam != "N" and not is_lazy(shape) and not mode:
+        if not crashed and budget == 0 and dd >= (50 if hooks else 400) and nbytes > 0 and fam != "N" and not is_lazy(shape) and not mode:
             key = shape[:-1] if ("," not in shape and shape.endswith("0000")) else f"({fam}: mixed/with work/noise)"
             if fam == "S":
                 key = "S:super()"
